@@ -1437,7 +1437,7 @@ func (l *ChainedSeqContext3) apply(ctx *Context, a, b int) int {
 		matchPos = append(matchPos, p)
 		glyphsNeeded--
 		p++
-		for p+glyphsNeeded < b && !keep.Keep(seq[p].GID) {
+		for p < b && !keep.Keep(seq[p].GID) {
 			p++
 		}
 	}
@@ -1451,7 +1451,7 @@ func (l *ChainedSeqContext3) apply(ctx *Context, a, b int) int {
 		}
 		glyphsNeeded--
 		p++
-		for p+glyphsNeeded < len(seq) && !keep.Keep(seq[p].GID) {
+		for p < len(seq) && !keep.Keep(seq[p].GID) {
 			p++
 		}
 	}
